@@ -4,8 +4,8 @@
 Nothing here refers to the model.  A document is what the header file describes: lines before the
 first section, then sections — a header line `[name]` followed by blank lines, comment lines
 (`#…`, `;…`) and `key = value` lines.  The layout freedom of the format (blanks, quoting style,
-trailing comments, line ends) is part of the AST so that the printer is a plain function; the only
-choice outside the AST is the byte-order mark (`Style`).
+trailing comments, line ends, a byte-order mark at the start of a line) is part of the AST so that the
+printer is a plain function; the only choice outside the AST is the byte-order mark of the file (`Style`).
 -/
 namespace PV.IniSpec
 
@@ -57,32 +57,6 @@ inductive Body where
   | entry (e : Entry)
   deriving Repr, DecidableEq
 
-structure Line where
-  body : Body
-  eol : Eol
-  deriving Repr, DecidableEq
-
-/-- `lead [ pre name post ] trail` -/
-structure Header where
-  lead : Bytes
-  pre : Bytes
-  name : Bytes
-  post : Bytes
-  trail : Bytes
-  eol : Eol
-  deriving Repr, DecidableEq
-
-structure Sec where
-  header : Header
-  body : List Line
-  deriving Repr, DecidableEq
-
-structure Doc where
-  /-- lines before the first section header: they contribute nothing -/
-  preamble : List Line
-  secs : List Sec
-  deriving Repr, DecidableEq
-
 /-- byte-order marks the header promises are skipped.  (UTF-32 LE, `FF FE 00 00`, is not offered:
 the code takes it for UTF-16 LE and then sees an empty line.) -/
 inductive Bom where
@@ -95,6 +69,36 @@ def Bom.bytes : Bom → Bytes
   | .utf16be => [0xFE, 0xFF]
   | .utf16le => [0xFF, 0xFE]
   | .utf32be => [0x00, 0x00, 0xFE, 0xFF]
+
+/-- one physical line that is no section header.  `mark`: a byte-order mark at its very start — the parser
+skips one at the start of *every* line it reads (files pasted together carry marks in the middle) -/
+structure Line where
+  body : Body
+  eol : Eol
+  mark : Bom
+  deriving Repr, DecidableEq
+
+/-- `[mark] lead [ pre name post ] trail` -/
+structure Header where
+  lead : Bytes
+  pre : Bytes
+  name : Bytes
+  post : Bytes
+  trail : Bytes
+  eol : Eol
+  mark : Bom
+  deriving Repr, DecidableEq
+
+structure Sec where
+  header : Header
+  body : List Line
+  deriving Repr, DecidableEq
+
+structure Doc where
+  /-- lines before the first section header: they contribute nothing -/
+  preamble : List Line
+  secs : List Sec
+  deriving Repr, DecidableEq
 
 structure Style where
   bom : Bom
@@ -118,15 +122,27 @@ def Body.render : Body → Bytes
   | .comment lead c => lead ++ c.render
   | .entry e => e.render
 
-def Line.render (l : Line) : Bytes := l.body.render ++ l.eol.bytes
+/-- the line without its mark -/
+def Line.core (l : Line) : Bytes := l.body.render ++ l.eol.bytes
 
-def Header.render (h : Header) : Bytes :=
+def Line.render (l : Line) : Bytes := l.mark.bytes ++ l.core
+
+/-- the header line without its mark -/
+def Header.core (h : Header) : Bytes :=
   h.lead ++ [91] ++ h.pre ++ h.name ++ h.post ++ [93] ++ h.trail ++ h.eol.bytes
+
+def Header.render (h : Header) : Bytes := h.mark.bytes ++ h.core
 
 def Sec.lines (s : Sec) : List Bytes := s.header.render :: s.body.map Line.render
 
+/-- the physical lines as (mark, rest) -/
+def Sec.cores (s : Sec) : List (Bom × Bytes) := (s.header.mark, s.header.core) :: s.body.map fun l => (l.mark, l.core)
+
 /-- the physical lines of the file, in order -/
 def Doc.lines (d : Doc) : List Bytes := d.preamble.map Line.render ++ d.secs.flatMap Sec.lines
+
+def Doc.cores (d : Doc) : List (Bom × Bytes) :=
+  d.preamble.map (fun l => (l.mark, l.core)) ++ d.secs.flatMap Sec.cores
 
 def render (σ : Style) (d : Doc) : Bytes := σ.bom.bytes ++ d.lines.flatten
 
@@ -250,12 +266,20 @@ def eolsOk : List Eol → Bool
 def Doc.eols (d : Doc) : List Eol :=
   d.preamble.map (·.eol) ++ d.secs.flatMap fun s => s.header.eol :: s.body.map (·.eol)
 
-/-- every physical line fits the line buffer and does not look like a byte-order mark -/
+/-- a physical line `mark rest` fits the line buffer; when it has no mark its first bytes are not those of one
+(they would *be* its mark) -/
+def lineOk (m : Bom) (rest : Bytes) : Bool :=
+  m.bytes.length + rest.length ≤ maxLine && (m != .none || !startsWithBom rest)
+
+/-- every physical line fits the line buffer; a mark is what the line starts with; the first line carries at
+most one mark (the file's, `σ.bom`, or its own) -/
 def linesOk (σ : Style) (d : Doc) : Bool :=
-  match d.lines with
+  match d.cores with
   | [] => true
-  | l :: ls => (σ.bom.bytes.length + l.length ≤ maxLine && (σ.bom != .none || !startsWithBom l))
-               && ls.all fun l => l.length ≤ maxLine && !startsWithBom l
+  | (m, l) :: ls =>
+    (σ.bom == .none || m == .none)
+    && lineOk (if σ.bom == .none then m else σ.bom) l
+    && ls.all fun p => lineOk p.1 p.2
 
 /-- The documented grammar, line by line (see `PV.Props.C16` for what it leaves out). -/
 def WF (σ : Style) (d : Doc) : Bool :=
